@@ -54,7 +54,16 @@ func c15SharedHook(r *Run) string {
 	return p
 }
 
+// a further request on the same operator (stateful cache): only the oracle line is recorded for it,
+// because with a warm cache the chain chosen may legitimately differ from the model's
+type c15Req struct {
+	From, Desired string
+	NObjs         int
+	Script        []string
+}
+
 type c15E2E struct {
+	More    []c15Req
 	Rules   []c15Rule
 	Owner   []int // hook number per rule
 	NHooks  int
@@ -118,131 +127,141 @@ func c15RunE2E(r *Run, c *Case, e c15E2E) {
 			return
 		}
 	}
-	_ = os.WriteFile(filepath.Join(ctl, "counter"), []byte("0\n"), 0o644)
-	_ = os.WriteFile(filepath.Join(ctl, "script"), []byte(strings.Join(e.Script, "\n")+"\n"), 0o644)
 	_ = os.WriteFile(filepath.Join(ctl, "group"), []byte(c15Group), 0o644)
-	_ = os.WriteFile(filepath.Join(ctl, "desired"), []byte(e.Desired), 0o644)
-	_ = os.WriteFile(filepath.Join(ctl, "log"), nil, 0o644)
-
-	var ids, vers []string
-	var objs []string
-	for i := 1; i <= e.NObjs; i++ {
-		ids = append(ids, strconv.Itoa(i))
-		vers = append(vers, e.From)
-		objs = append(objs, fmt.Sprintf(`{"apiVersion":%q,"kind":"Thing","metadata":{"name":"%d"}}`, e.From, i))
-	}
-	uid := fmt.Sprintf("uid-%d", c.Idx)
-	body := fmt.Sprintf(`{"apiVersion":"apiextensions.k8s.io/v1","kind":"ConversionReview","request":{"uid":%q,"desiredAPIVersion":%q,"objects":[%s]}}`,
-		uid, e.Desired, strings.Join(objs, ","))
-
-	params := fmt.Sprintf("rules=%s links=%s to=%s group=%s objs=%s script=%s", c15Rules(e.Rules), c15Rules(e.Rules),
-		c15Tok(e.Desired), c15Group, c15ObjsTok(ids, vers), strings.ReplaceAll(joinStrs(e.Script), ",", ";"))
 
 	op, handler, err := shell_operator.VerifC15NewOperator(hooksDir, tmp)
 	if err != nil {
-		c.Op("e2e "+params, "setup-error "+firstLine(err.Error()))
+		c.Op("e2e setup", "setup-error "+firstLine(err.Error()))
 		return
 	}
 	defer op.VerifC15Stop()
-	req := httptest.NewRequest(http.MethodPost, "/things.g.io", bytes.NewReader([]byte(body)))
-	req.Header.Set("Content-Type", "application/json")
-	rec := httptest.NewRecorder()
-	handler.Router.ServeHTTP(rec, req)
 
-	// ---- observation
-	var review struct {
-		Response *struct {
-			UID              string            `json:"uid"`
-			ConvertedObjects []json.RawMessage `json:"convertedObjects"`
-			Result           struct {
-				Status  string `json:"status"`
-				Message string `json:"message"`
-			} `json:"result"`
-		} `json:"response"`
-	}
-	status, reply, oreply := "", "", ""
-	if rec.Code != http.StatusOK {
-		status = fmt.Sprintf("http-%d", rec.Code)
-	} else if err := json.Unmarshal(rec.Body.Bytes(), &review); err != nil || review.Response == nil {
-		status = "undecodable-response"
-	} else {
-		status = review.Response.Result.Status
-		if review.Response.UID != uid {
-			status = "uid-not-echoed"
+	reqs := append([]c15Req{{e.From, e.Desired, e.NObjs, e.Script}}, e.More...)
+	for qi, q := range reqs {
+		e.From, e.Desired, e.NObjs, e.Script = q.From, q.Desired, q.NObjs, q.Script
+		_ = os.WriteFile(filepath.Join(ctl, "counter"), []byte("0\n"), 0o644)
+		_ = os.WriteFile(filepath.Join(ctl, "script"), []byte(strings.Join(e.Script, "\n")+"\n"), 0o644)
+		_ = os.WriteFile(filepath.Join(ctl, "desired"), []byte(e.Desired), 0o644)
+		_ = os.WriteFile(filepath.Join(ctl, "log"), nil, 0o644)
+
+		var ids, vers []string
+		var objs []string
+		for i := 1; i <= e.NObjs; i++ {
+			ids = append(ids, strconv.Itoa(i))
+			vers = append(vers, e.From)
+			objs = append(objs, fmt.Sprintf(`{"apiVersion":%q,"kind":"Thing","metadata":{"name":"%d"}}`, e.From, i))
 		}
-	}
-	switch status {
-	case "Success":
-		var oi, ov []string
-		for _, raw := range review.Response.ConvertedObjects {
-			var o struct {
-				APIVersion string `json:"apiVersion"`
-				Metadata   struct {
-					Name string `json:"name"`
-				} `json:"metadata"`
+		uid := fmt.Sprintf("uid-%d-%d", c.Idx, qi)
+		body := fmt.Sprintf(`{"apiVersion":"apiextensions.k8s.io/v1","kind":"ConversionReview","request":{"uid":%q,"desiredAPIVersion":%q,"objects":[%s]}}`,
+			uid, e.Desired, strings.Join(objs, ","))
+
+		params := fmt.Sprintf("rules=%s links=%s to=%s group=%s objs=%s script=%s", c15Rules(e.Rules), c15Rules(e.Rules),
+			c15Tok(e.Desired), c15Group, c15ObjsTok(ids, vers), strings.ReplaceAll(joinStrs(e.Script), ",", ";"))
+
+		req := httptest.NewRequest(http.MethodPost, "/things.g.io", bytes.NewReader([]byte(body)))
+		req.Header.Set("Content-Type", "application/json")
+		rec := httptest.NewRecorder()
+		handler.Router.ServeHTTP(rec, req)
+
+		// ---- observation
+		var review struct {
+			Response *struct {
+				UID              string            `json:"uid"`
+				ConvertedObjects []json.RawMessage `json:"convertedObjects"`
+				Result           struct {
+					Status  string `json:"status"`
+					Message string `json:"message"`
+				} `json:"result"`
+			} `json:"response"`
+		}
+		status, reply, oreply := "", "", ""
+		if rec.Code != http.StatusOK {
+			status = fmt.Sprintf("http-%d", rec.Code)
+		} else if err := json.Unmarshal(rec.Body.Bytes(), &review); err != nil || review.Response == nil {
+			status = "undecodable-response"
+		} else {
+			status = review.Response.Result.Status
+			if review.Response.UID != uid {
+				status = "uid-not-echoed"
 			}
-			_ = json.Unmarshal(raw, &o)
-			oi = append(oi, o.Metadata.Name)
-			ov = append(ov, o.APIVersion)
 		}
-		reply = "Success objs=" + c15ObjsTok(oi, ov)
-		oreply = "status=Success robjs=" + c15ObjsTok(oi, ov)
-	case "Failure":
-		m := c15CanonMsg(review.Response.Result.Message)
-		reply = "Failed msg=" + m
-		oreply = "status=Failed msg=" + m
-	default:
-		reply = status
-		oreply = "status=" + status
+		switch status {
+		case "Success":
+			var oi, ov []string
+			for _, raw := range review.Response.ConvertedObjects {
+				var o struct {
+					APIVersion string `json:"apiVersion"`
+					Metadata   struct {
+						Name string `json:"name"`
+					} `json:"metadata"`
+				}
+				_ = json.Unmarshal(raw, &o)
+				oi = append(oi, o.Metadata.Name)
+				ov = append(ov, o.APIVersion)
+			}
+			reply = "Success objs=" + c15ObjsTok(oi, ov)
+			oreply = "status=Success robjs=" + c15ObjsTok(oi, ov)
+		case "Failure":
+			m := c15CanonMsg(review.Response.Result.Message)
+			reply = "Failed msg=" + m
+			oreply = "status=Failed msg=" + m
+		default:
+			reply = status
+			oreply = "status=" + status
+		}
+		// the hook runs, in order
+		owner := map[string]string{}
+		for i, rl := range e.Rules {
+			owner[rl.String()] = hookName(e.Owner[i])
+		}
+		var inv []string
+		logB, _ := os.ReadFile(filepath.Join(ctl, "log"))
+		for _, l := range strings.Split(strings.TrimSpace(string(logB)), "\n") {
+			if l == "" {
+				continue
+			}
+			f := strings.SplitN(l, " ", 2)
+			if len(f) != 2 {
+				inv = append(inv, "unreadable-log-line")
+				continue
+			}
+			entry := f[1]
+			if strings.HasSuffix(entry, "[]") {
+				entry = strings.TrimSuffix(entry, "[]") + "[-]"
+			}
+			entry = strings.ReplaceAll(entry, "@,", "@-,")
+			entry = strings.ReplaceAll(entry, "@]", "@-]")
+			ruleTok := entry[:strings.IndexByte(entry, '[')]
+			if owner[ruleTok] != f[0] {
+				entry = "ran-in-a-hook-that-did-not-register-it:" + f[0] + ":" + entry
+			}
+			inv = append(inv, entry)
+		}
+		invTok := "-"
+		if len(inv) > 0 {
+			invTok = strings.Join(inv, ";")
+		}
+		if qi == 0 {
+			c.Op("e2e "+params, reply+" inv="+invTok)
+		} else {
+			c.Note("e2e:later-request-on-a-warm-cache")
+		}
+		c.Oracle("e2e " + params + " inv=" + invTok + " " + oreply)
+		c.Note("e2e:reply:" + strings.SplitN(reply, "=", 2)[0] + func() string {
+			if strings.HasPrefix(reply, "Failed msg=own:") {
+				return "=own"
+			}
+			if i := strings.Index(reply, "="); i >= 0 && strings.HasPrefix(reply, "Failed") {
+				return "=" + reply[i+1:]
+			}
+			return ""
+		}())
+		c.Note(fmt.Sprintf("e2e:runs=%d", len(inv)))
+		for _, s := range e.Script {
+			c.Note("e2e:script:" + s[:1])
+		}
+		c.Nontrivial = c.Nontrivial || len(inv) > 0
 	}
-	// the hook runs, in order
-	owner := map[string]string{}
-	for i, rl := range e.Rules {
-		owner[rl.String()] = hookName(e.Owner[i])
-	}
-	var inv []string
-	logB, _ := os.ReadFile(filepath.Join(ctl, "log"))
-	for _, l := range strings.Split(strings.TrimSpace(string(logB)), "\n") {
-		if l == "" {
-			continue
-		}
-		f := strings.SplitN(l, " ", 2)
-		if len(f) != 2 {
-			inv = append(inv, "unreadable-log-line")
-			continue
-		}
-		entry := f[1]
-		if strings.HasSuffix(entry, "[]") {
-			entry = strings.TrimSuffix(entry, "[]") + "[-]"
-		}
-		entry = strings.ReplaceAll(entry, "@,", "@-,")
-		entry = strings.ReplaceAll(entry, "@]", "@-]")
-		ruleTok := entry[:strings.IndexByte(entry, '[')]
-		if owner[ruleTok] != f[0] {
-			entry = "ran-in-a-hook-that-did-not-register-it:" + f[0] + ":" + entry
-		}
-		inv = append(inv, entry)
-	}
-	invTok := "-"
-	if len(inv) > 0 {
-		invTok = strings.Join(inv, ";")
-	}
-	c.Op("e2e "+params, reply+" inv="+invTok)
-	c.Oracle("e2e " + params + " inv=" + invTok + " " + oreply)
-	c.Note("e2e:reply:" + strings.SplitN(reply, "=", 2)[0] + func() string {
-		if strings.HasPrefix(reply, "Failed msg=own:") {
-			return "=own"
-		}
-		if i := strings.Index(reply, "="); i >= 0 && strings.HasPrefix(reply, "Failed") {
-			return "=" + reply[i+1:]
-		}
-		return ""
-	}())
-	c.Note(fmt.Sprintf("e2e:runs=%d", len(inv)))
-	for _, s := range e.Script {
-		c.Note("e2e:script:" + s[:1])
-	}
-	c.Nontrivial = len(inv) > 0
 }
 
 // c15ShortestCount counts the rule sequences of minimal length from a to b (classes = short versions).
@@ -370,6 +389,36 @@ func c15E2ERandom(r *Run) {
 				}
 				break
 			}
+		}
+		// further requests on the same operator, any pair of versions
+		for k := rng.Intn(3); k > 0 && rng.Chance(60); k-- {
+			var vs []string
+			seenV := map[string]bool{}
+			for _, rl := range e.Rules {
+				for _, v := range []string{c15Trim(rl.From), c15Trim(rl.To)} {
+					if !seenV[v] {
+						seenV[v] = true
+						vs = append(vs, v)
+					}
+				}
+			}
+			if len(vs) < 2 {
+				break
+			}
+			fa, fb := PickOne(rng, vs), PickOne(rng, vs)
+			if fa == fb {
+				continue
+			}
+			n := rng.Range(1, 2)
+			var sc []string
+			for i := 0; i < 6; i++ {
+				it := fmt.Sprintf("k%d", n)
+				if rng.Chance(12) {
+					it = PickOne(rng, []string{"x", "e", fmt.Sprintf("m%d:later-%d", n, i), fmt.Sprintf("k%d", n+1), fmt.Sprintf("d%d", n)})
+				}
+				sc = append(sc, it)
+			}
+			e.More = append(e.More, c15Req{c15Group + "/" + fa, c15Group + "/" + fb, n, sc})
 		}
 		e.NHooks = rng.Range(1, 3)
 		for range e.Rules {
